@@ -61,7 +61,8 @@ def run_strs(ctx, sequences, ops, sweeps, decodes, seed_offset=0, label="general
         if l.startswith("#"):
             continue
         if l.startswith("new "):
-            queries.append(l); expected.append(None); meta.append((trace_no, len(trace_lines[trace_no]))); trace_lines[trace_no].append(l); continue
+            q, _, r = l.partition(" => ")
+            queries.append(q); expected.append(r or None); meta.append((trace_no, len(trace_lines[trace_no]))); trace_lines[trace_no].append(l); continue
         if l.startswith("oracle "):
             _, prop, msg = l.split(" ", 2)
             oracle_lines.append((trace_no, trace_seed, trace_hdr, prop, msg, len(trace_lines[trace_no]))); continue
@@ -118,7 +119,8 @@ def run_strs(ctx, sequences, ops, sweeps, decodes, seed_offset=0, label="general
             ctx.distinct.add(q)
     st = ctx.corr.setdefault("strs", {})
     st[label] = {"traces": trace_no + 1, "ops_compared_with_model": n_ops, "disagreeing_ops": n_dis,
-                 "fields_compared": ["outcome (ok[:value] / err / panic)", "contents (hex)", "len", "capacity (fixed strings)"],
+                 "fields_compared": ["outcome (ok[:value] / err / panic)", "contents (hex)", "len",
+                                     "capacity (FixedBumpString, BumpString exactly; MutBumpString with the arena's grant as model input)"],
                  "oracle_lines": dict(counted), **summary}
     if len(ctx.samples) < 6:
         ctx.samples.append({"engine": "strs", "first_lines_of_trace_0": [x[:200] for x in trace_lines.get(0, [])[:6]]})
